@@ -340,6 +340,11 @@ func runC10(c C10Case, mutate bool) (*c10Run, *Failure) {
 			for k, o := range n.In {
 				in[k] = pool[o]
 			}
+			if si%3 == 0 {
+				// every third operation is preceded by calls of the same operation on the same
+				// tensors that must be rejected: they leave every existing tensor as it is
+				prog.InvalidCall(n, in)
+			}
 			var p prog.Passed
 			y, err := prog.ApplyLib(n, in, &p)
 			if err != nil {
